@@ -315,3 +315,53 @@ __CPROVER_ensures(g_exc == 0 || g_exc == EXC_STD)
     harness='  BW* s; BW_init_limits(s);',
     dropped=['text of the error messages (fmt::format)'], trusted=['_init runs outside any try block of the thread function: an invalid configuration terminates the process (std::terminate) instead of reaching the error notifier - a configuration error, outside C10'], min_obligations=8)
 UNITS.append(bw_init_limits)
+
+# ------------------------------------------------------------------------------------------ ManualBackendWorker::poll_one / poll
+MBH = 'quill/backend/ManualBackendWorker.h'
+MB_PRELUDE = r'''
+typedef struct BWm { int dummy; } BWm;
+typedef struct MBW { BWm* _backend_worker; } MBW;
+size_t g_polls, g_notify_calls, g_thrown_total, g_checks; bool g_last_check;
+/* one pass of the backend: may let an exception of ANY type escape (user sinks, notifier callbacks, allocation) */
+void BW__poll(BWm* b) __CPROVER_assigns(g_polls, g_exc, g_thrown_total, g_last_check)
+__CPROVER_ensures(g_polls == OLD(g_polls) + 1 && (g_exc == 0 || g_exc == EXC_STD || g_exc == EXC_OTHER) && g_thrown_total == OLD(g_thrown_total) + (g_exc != 0 ? 1 : 0) && !g_last_check);
+void ERROR_NOTIFIER(BWm* b) __CPROVER_assigns(g_notify_calls) __CPROVER_ensures(g_notify_calls == OLD(g_notify_calls) + 1);
+/* _check_frontend_queues_and_cached_transit_events_empty (unit BW.queues_empty): g_last_check remembers the answer of the latest check; a pass invalidates it */
+bool BW__check_empty(BWm* b) __CPROVER_assigns(g_checks, g_last_check) __CPROVER_ensures(g_checks == OLD(g_checks) + 1 && g_last_check == RET);
+'''
+MB_RULES = [(r'_backend_worker->_poll\(\)', 'BW__poll(_backend_worker)'), (r'_backend_worker->_options\.error_notifier\s*\([^;]*\)\s*;', 'ERROR_NOTIFIER(_backend_worker);'),
+            (r'_backend_worker->_check_frontend_queues_and_cached_transit_events_empty\(\)', 'BW__check_empty(_backend_worker)')]
+mbw_poll_one_f = dict(src=dict(header=MBH, cls='ManualBackendWorker', name='poll_one'), src_params=[], cfun='MBW_poll_one', sig='void MBW_poll_one(MBW* self)', cls_c='MBW',
+                      member_fields=['_backend_worker'], pre_rules=MB_RULES, exceptions=True, may_throw=['BW__poll'])
+mbw_poll_one = dict(
+    name='MBW.poll_one', primary='C10', props={'C10'}, kind='S',
+    desc='ManualBackendWorker::poll_one: one backend pass; no exception of any type escapes to the caller, each is reported through the error notifier once',
+    structs=[], prelude=MB_PRELUDE, enforce='MBW_poll_one', replace=['BW__poll', 'ERROR_NOTIFIER'],
+    funcs=[dict(mbw_poll_one_f, contract=r'''
+__CPROVER_requires(__CPROVER_is_fresh(self, sizeof(*self)) && g_exc == 0 && g_polls == 0 && g_notify_calls == 0 && g_thrown_total == 0)
+__CPROVER_assigns(g_polls, g_exc, g_thrown_total, g_notify_calls, g_last_check)
+__CPROVER_ensures(g_exc == 0) /*@ C10 "no exception of any type escapes a manual backend pass: a throwing sink or notifier never reaches the application thread that polls" */
+__CPROVER_ensures(g_polls == 1 && g_notify_calls == g_thrown_total) /*@ C10 "exactly one pass; an exception that reaches poll_one is reported through the error notifier exactly once" */
+''')],
+    harness='  MBW* m; MBW_poll_one(m);', dropped=['assert (NDEBUG)', 'text of the error messages'], trusted=['BackendWorker::_poll by its own unit (BW.poll); it may throw any type'], min_obligations=8)
+mbw_poll = dict(
+    name='MBW.poll', primary='C03', props={'C03', 'C06', 'C10'}, kind='S',
+    desc='ManualBackendWorker::poll(): passes are repeated until a check finds every queue and buffer empty - it returns only directly after such a check (partial correctness: no termination claim)',
+    structs=[], prelude=MB_PRELUDE + r'''
+void MBW_poll_one(MBW* self) __CPROVER_requires(g_exc == 0) __CPROVER_assigns(g_polls, g_last_check) __CPROVER_ensures(g_polls == OLD(g_polls) + 1 && !g_last_check);   /* unit MBW.poll_one: contains every exception */
+''', enforce='MBW_poll', replace=['MBW_poll_one', 'BW__check_empty'], loopcontracts=True,
+    funcs=[dict(src=dict(header=MBH, cls='ManualBackendWorker', name='poll', nth=0), src_params=[], cfun='MBW_poll', sig='void MBW_poll(MBW* self)', cls_c='MBW', member_fields=['_backend_worker'],
+                siblings=['poll_one'], pre_rules=MB_RULES,
+                loops={0: r'''
+__CPROVER_assigns(g_polls, g_checks, g_last_check)
+__CPROVER_loop_invariant(g_exc == 0)
+'''},
+                contract=r'''
+__CPROVER_requires(__CPROVER_is_fresh(self, sizeof(*self)) && g_exc == 0)
+__CPROVER_assigns(g_polls, g_checks, g_last_check)
+__CPROVER_ensures(g_last_check) /*@ C03,C06 "poll() returns only directly after a check that found every frontend queue and every backend buffer empty (no pass in between): everything logged before has been processed" */
+__CPROVER_ensures(g_exc == 0) /*@ C10 "nothing escapes poll()" */
+''')],
+    harness='  MBW* m; MBW_poll(m);', dropped=['assert (NDEBUG)'], trusted=['poll_one by unit MBW.poll_one', '_check_frontend_queues_and_cached_transit_events_empty by unit BW.queues_empty'],
+    assumes=['partial correctness: whether the loop ends is not claimed'], min_obligations=8)
+UNITS += [mbw_poll_one, mbw_poll]
